@@ -92,9 +92,11 @@ def run(ctx, R, tier):
     ok = len(e_app) == 1 and not others and all(unparse(c.func.value) == resvar for c in appends)
     if ok:
         a = e_app[0].args[0] if e_app[0].args else None
-        ok = isinstance(a, ast.Name) and any(d.kind == "assign" and d.value is call for n in ctx.node_of(hr, e_app[0]) for d in rd.reaching(n, a.id))
-    R.check(ok, "C11-R2", "batch|success-appends-result", "the success path appends that call's result, and nothing else appends", hr.loc(T),
-            "%d success appends, %d other appends in the batch loop" % (len(e_app), len(others)))
+        defs_ = [d for n in ctx.node_of(hr, e_app[0]) for d in rd.reaching(n, a.id)] if isinstance(a, ast.Name) else []
+        ok = bool(defs_) and all(d.kind == "assign" and d.value is call for d in defs_)
+    R.check(ok, "C11-R2", "batch|success-appends-result", "the success path appends that call's result itself (not a conversion of it), and nothing else appends", hr.loc(T),
+            "%d success appends, %d other appends in the batch loop, or the appended value is not (only) what the method returned: a batched call's result differs from "
+            "the same call made on its own" % (len(e_app), len(others)))
     inits = [st for st, t, k in stores_in(hr.node) if k == "assign" and unparse(t) == resvar and isinstance(st.value, ast.List) and not st.value.elts]
     ok = bool(inits) and all(cfg.guarded(n, lambda e: edge_has_fact(e, batch_true)) for st in inits for n in cfg.nodes_for(st)) and \
         not any(lp in enclosing_loops(st, hr.node) for st in inits)
